@@ -128,6 +128,8 @@ type family struct {
 	senderOK float64
 	timeStep func(w *world) int64
 	fifo     bool
+	// number of quiet ticks appended after the scenario (C11): no requests, no faults, every hand-off succeeds
+	drainTicks int
 }
 
 // ---------- the runner ----------
@@ -153,6 +155,8 @@ type trace struct {
 	Events []event        `json:"events"`
 	Stats  map[string]int `json:"stats"`
 	Error  string         `json:"error,omitempty"`
+	// index of the first event of the final quiet phase (no client requests, no faults, hand-offs succeed); -1: none
+	DrainFrom int `json:"drain_from"`
 }
 
 var bgCtors = map[string]func(*system.Config, map[string]string) coroutineFunc{}
@@ -240,6 +244,7 @@ type runner struct {
 	inflight map[string]bool  // request ids not yet answered
 	reg     *prometheus.Registry
 	afterCrash bool
+	quiet   bool
 }
 
 func (rn *runner) noteCron(cron string, t int64) {
@@ -282,7 +287,7 @@ func runTrace(f *family, seed uint64, dir string) (tr *trace) {
 	cfg := f.config(r)
 	path := filepath.Join(dir, fmt.Sprintf("t%d.db", seed))
 	_ = os.Remove(path)
-	tr = &trace{Family: f.name, Seed: seed, Stats: map[string]int{}, Crons: []term{}}
+	tr = &trace{Family: f.name, Seed: seed, Stats: map[string]int{}, Crons: []term{}, DrainFrom: -1}
 	tr.Cfg = map[string]any{
 		"url": cfg.Url, "pbatch": cfg.PromiseBatchSize, "sbatch": cfg.ScheduleBatchSize, "tbatch": cfg.TaskBatchSize,
 		"enq_delay": cfg.TaskEnqueueDelay.Milliseconds(), "fifo": f.fifo,
@@ -333,6 +338,16 @@ func runTrace(f *family, seed uint64, dir string) (tr *trace) {
 			rn.crash()
 		}
 	}
+	if f.drainTicks > 0 {
+		// the quiet phase: clients have stopped, nothing fails any more, every hand-off succeeds
+		rn.quiet = true
+		rn.left = 0
+		tr.DrainFrom = len(tr.Events)
+		for i := 0; i < f.drainTicks; i++ {
+			rn.tick()
+			rn.process()
+		}
+	}
 	return
 }
 
@@ -341,6 +356,9 @@ func runTrace(f *family, seed uint64, dir string) (tr *trace) {
 func (rn *runner) tick() {
 	w, r, k := rn.w, rn.w.r, rn.k
 	step := rn.f.timeStep(w)
+	if rn.quiet {
+		step = 1
+	}
 	if rn.afterCrash && step < 1 {
 		// a restarted kernel names its background coroutines <name>:<t>; keep those ids fresh
 		step = 1
@@ -353,7 +371,7 @@ func (rn *runner) tick() {
 	delivered := []term{}
 	var cqes []*bus.CQE[t_aio.Submission, t_aio.Completion]
 	for _, e := range append([]*pendEntry{}, k.aio.pend...) {
-		if e.ready != nil && r.chance(0.85) {
+		if e.ready != nil && (rn.quiet || r.chance(0.85)) {
 			cqes = append(cqes, e.ready)
 			delivered = append(delivered, P(S(e.id), N(e.n)))
 			k.aio.remove(e)
@@ -470,10 +488,10 @@ func (rn *runner) process() {
 		}
 		switch e.sqe.Submission.Kind {
 		case t_aio.Router:
-			if r.chance(0.1) {
+			if !rn.quiet && r.chance(0.1) {
 				continue // later
 			}
-			if r.chance(rn.f.fault) {
+			if !rn.quiet && r.chance(rn.f.fault) {
 				e.ready = &bus.CQE[t_aio.Submission, t_aio.Completion]{Id: e.id, Callback: e.sqe.Callback, Error: fmt.Errorf("injected router failure")}
 				rn.tr.Events = append(rn.tr.Events, event{D: C("DRouter", S(e.id), N(e.n), nil), O: []term{}})
 				rn.stat("fault:router")
@@ -487,13 +505,13 @@ func (rn *runner) process() {
 			}
 			rn.tr.Events = append(rn.tr.Events, event{D: C("DRouter", S(e.id), N(e.n), Some(res)), O: []term{}})
 		case t_aio.Sender:
-			if r.chance(0.1) {
+			if !rn.quiet && r.chance(0.1) {
 				continue
 			}
 			var res term
 			cqe := &bus.CQE[t_aio.Submission, t_aio.Completion]{Id: e.id, Callback: e.sqe.Callback}
 			x := float64(r.intn(1000)) / 1000.0
-			if x < rn.f.senderOK {
+			if rn.quiet || x < rn.f.senderOK {
 				cqe.Completion = &t_aio.Completion{Kind: t_aio.Sender, Tags: e.sqe.Submission.Tags, Sender: &t_aio.SenderCompletion{Success: true}}
 				res = Some(true)
 			} else if x < rn.f.senderOK+(1-rn.f.senderOK)/2 {
@@ -519,7 +537,7 @@ func (rn *runner) process() {
 		if len(store) == 0 {
 			return
 		}
-		if r.chance(0.12) {
+		if !rn.quiet && r.chance(0.12) {
 			return // leave the rest for a later round
 		}
 		minGroup := store[0].group
@@ -540,7 +558,7 @@ func (rn *runner) process() {
 			cand[i], cand[j] = cand[j], cand[i]
 		}
 		// pre-failure of one submission
-		if r.chance(rn.f.fault) {
+		if !rn.quiet && r.chance(rn.f.fault) {
 			e := cand[0]
 			e.ready = &bus.CQE[t_aio.Submission, t_aio.Completion]{Id: e.id, Callback: e.sqe.Callback, Error: fmt.Errorf("injected failure before processing")}
 			rn.tr.Events = append(rn.tr.Events, event{D: C("DDrop", S(e.id), N(e.n)), O: []term{}})
@@ -588,7 +606,7 @@ func (rn *runner) exec(batch []*pendEntry) {
 				}
 			}
 			all = append(all, ResultsT(cqe.Completion.Store.Results))
-			if r.chance(rn.f.fault) {
+			if !rn.quiet && r.chance(rn.f.fault) {
 				lose = true
 				cqe = &bus.CQE[t_aio.Submission, t_aio.Completion]{Id: e.id, Callback: cqe.Callback, Error: fmt.Errorf("injected failure after processing")}
 				rn.stat("fault:lose")
